@@ -774,6 +774,15 @@ func renderHook(in Input, obs *Obs, crash string) core.Case {
 			}
 		}
 	}
+	if len(h.Kube) >= 4 {
+		members := 0
+		for _, k := range h.Kube {
+			if k.Group == "g" {
+				members++
+			}
+		}
+		tag(fmt.Sprintf("hook:wide:group-of-%d-with-extra-includes", members))
+	}
 	for _, r := range refs {
 		if len(r.incl) > 0 {
 			tag("hook:includeSnapshotsFrom:" + r.typ)
@@ -812,7 +821,10 @@ func renderHook(in Input, obs *Obs, crash string) core.Case {
 // ---- generation ----
 
 var hookNames = []string{"pods.example.com", "cm.example.com", "x.y.z", "settings.example.com"}
-var hookNamespaces = []string{"d", "ks", "n3"}
+var hookNamespaces = []string{"d", "ks", "n3", "n4", "n5", "n6", "n7"}
+
+// further binding names for hooks with many kubernetes bindings (groups of 3, 5, 6 members)
+var hookNamesWide = []string{"deployments.apps.example", "secrets.core.example", "services.core.example"}
 var hookVersions = []string{"v1alpha1", "v1beta1", "v1", "v2"}
 var hookOtherTypes = []string{"schedule", "kubernetesValidating", "kubernetesMutating", "kubernetesCustomResourceConversion"}
 
@@ -849,7 +861,15 @@ func (g *gen) hook(triggerPct int) Input {
 	if g.r.Chance(4) {
 		nk = 0 // a hook without a kubernetes controller
 	}
+	// wide: 4-7 kubernetes bindings, 3 / 5 / 6 of them in one group, the others outside it; two or three
+	// bindings of the group (kubernetes members, a schedule or validating binding with that group) each
+	// add ANOTHER outside binding by includeSnapshotsFrom (group and includeSnapshotsFrom together)
+	wide := g.r.Chance(12)
 	names := append([]string{}, hookNames...)
+	if wide {
+		nk = 4 + g.r.Intn(4)
+		names = append(names, hookNamesWide...)
+	}
 	for i := len(names) - 1; i > 0; i-- {
 		j := g.r.Intn(i + 1)
 		names[i], names[j] = names[j], names[i]
@@ -892,6 +912,32 @@ func (g *gen) hook(triggerPct int) Input {
 			}
 		}
 		h.Kube = append(h.Kube, k)
+	}
+	var wideKube []int // members of the group that add an outside binding
+	var outside []string
+	if wide {
+		gsz := 3
+		if nk >= 6 && g.r.Bool() {
+			gsz = 5
+		}
+		if nk >= 7 && g.r.Chance(33) {
+			gsz = 6
+		}
+		outside = append(outside, kubeNames[gsz:]...)
+		for i := range h.Kube {
+			h.Kube[i].Group, h.Kube[i].Incl = "", nil
+			if i < gsz {
+				h.Kube[i].Group = "g"
+			}
+		}
+		adders := 1 + g.r.Intn(2)
+		for a := 0; a < adders; a++ {
+			i := g.r.Intn(gsz)
+			if len(h.Kube[i].Incl) == 0 {
+				h.Kube[i].Incl = []string{outside[(a+i)%len(outside)]}
+				wideKube = append(wideKube, i)
+			}
+		}
 	}
 	inclOf := func(name string) ([]string, bool) {
 		for _, k := range h.Kube {
@@ -994,6 +1040,15 @@ func (g *gen) hook(triggerPct int) Input {
 		}
 		h.Other = append(h.Other, o)
 	}
+	var wideOther []int
+	if wide {
+		for a := 0; a < 1+g.r.Intn(2); a++ {
+			o := HookOther{Type: []string{"schedule", "kubernetesValidating"}[a%2], Name: fmt.Sprintf("wide%d.example.com", a), Group: "g",
+				Incl: []string{outside[(len(outside)-1-a+len(outside))%len(outside)]}}
+			h.Other = append(h.Other, o)
+			wideOther = append(wideOther, len(h.Other)-1)
+		}
+	}
 	in := Input{Version: "v1", Hook: h}
 	alive := make([][]string, nk)
 	for i, k := range h.Kube {
@@ -1037,6 +1092,12 @@ func (g *gen) hook(triggerPct int) Input {
 		} else if len(h.Other) > 0 {
 			in.Ctxs = append(in.Ctxs, otherEv(g.r.Intn(len(h.Other))))
 		}
+	}
+	for _, i := range wideKube {
+		in.Ctxs = append(in.Ctxs, kubeEv(i))
+	}
+	for _, j := range wideOther {
+		in.Ctxs = append(in.Ctxs, otherEv(j))
 	}
 	// a request for every rule of every conversion binding (most of them), in any order
 	var convEvs []Ctx
